@@ -76,6 +76,27 @@ def c20_1(ctx):
                 tiles.append((s, ("tag", tag_of(v.left)), w, n))
                 if order != "big":
                     out.append(ctx.bad(spec, "length after tag 0x%02x is written %s-endian; CBOR lengths are big-endian" % (tag_of(v.left), order), v, mod, key="endian:%02x" % tag_of(v.left)))
+            elif isinstance(v, ast.Call) and call_name(v) == "pack" and v.args and isinstance(f.fold(v.args[0]), str):
+                # struct.pack(format, tag, length): byte order character, then one code per value
+                fmt = f.fold(v.args[0])
+                order = "little" if fmt[:1] in ("<", "=", "@") or fmt[:1].isalpha() else "big"
+                codes = [ch for ch in fmt if ch.isalpha()]
+                widths = {"B": 1, "H": 2, "I": 4, "L": 4, "Q": 8, "b": 1, "h": 2, "i": 4, "l": 4, "q": 8}
+                vals = v.args[1:]
+                if len(codes) != len(vals) or any(ch not in widths for ch in codes) or not codes or codes[0] != "B":
+                    raise AnalysisError("cbor_encode: struct format %r not recognised" % fmt)
+                if len(codes) == 1 and isinstance(vals[0], ast.BinOp) and isinstance(vals[0].op, ast.Add):
+                    tiles.append((s, ("inline", f.fold(vals[0].left)), 0, n))
+                elif len(codes) == 2 and isinstance(f.fold(vals[0]), int):
+                    tg = f.fold(vals[0])
+                    tiles.append((s, ("tag", tg), widths[codes[1]], n))
+                    if codes[1].islower():
+                        out.append(ctx.bad(spec, "length after tag 0x%02x is packed with the *signed* format `%s`: lengths from 2^%d on raise struct.error (CBOR lengths are unsigned)" % (
+                            tg, codes[1], 8 * widths[codes[1]] - 1), v, mod, key="signed:%02x" % tg))
+                    if order != "big" and widths[codes[1]] > 1:
+                        out.append(ctx.bad(spec, "length after tag 0x%02x is written %s-endian; CBOR lengths are big-endian" % (tg, order), v, mod, key="endian:%02x" % tg))
+                else:
+                    raise AnalysisError("cbor_encode: struct format %r with these values not recognised" % fmt)
             else:
                 raise AnalysisError("cbor_encode: prefix form not recognised: %s" % ast.unparse(v))
     if not tiles:
@@ -355,6 +376,10 @@ def c20_5(ctx):
 
 
 def c20_6(ctx):
+    # decided by evaluating the function (c20_13); the reading of the statements below is the fallback when it cannot be evaluated
+    ev = c20_13(ctx)
+    if not any(r.status == "error" for r in ev):
+        return ev
     spec = "bcur:BCURMulti.encode"
     mod, fn = rl.get(ctx, spec)
     src = ast.unparse(fn)
@@ -555,7 +580,51 @@ def c20_12(ctx):
     return shared_obligations(ctx, ["bcur", "bech32"], "the result would depend on something other than the arguments and the object's current state")
 
 
+def c20_13(ctx):
+    """the parts of a multi-part UR carry the whole encoding: BCURMulti.encode looks at the encoded text only through its length and through
+    slices, so it is evaluated for every text length 1..100 and every chunk size 1..20 (bounded; 2000 cells): the pieces of the parts, in
+    order, must concatenate to the encoding, each part must be labelled `<i>of<n>` with i = 1..n and n the number of parts, and no piece may
+    be empty or longer than the chunk size"""
+    import math
+    import string
+    from sa.cells import Evaluator, Obj, Raised, Undecided
+    spec = "bcur:BCURMulti.encode"
+    mod, fn = rl.get(ctx, spec)
+    alphabet = string.ascii_lowercase + string.digits
+    cells = 0
+    for L in range(1, 101):
+        text = "".join(alphabet[i % len(alphabet)] for i in range(L))
+        for M in range(1, 21):
+            cells += 1
+            me = Obj("bcur", "BCURMulti", {"encoded": text, "enc_hash": "hh", "checksum": "hh", "text_b64": ""})
+            try:
+                r = Evaluator(ctx.repo, externals={"ceil": math.ceil}, max_steps=400000).call(spec, [], kwargs={"max_size_per_chunk": M, "animate": True}, self_obj=me)
+            except Raised as x:
+                return [ctx.bad(spec, "encoding of length %d with chunk size %d raises %s" % (L, M, x.name), fn, mod, key="parts-cover")]
+            except Undecided as u:
+                return [ctx.err(spec, "encode not evaluable (length %d, chunk size %d): %s" % (L, M, u), fn, mod)]
+            if not isinstance(r, list) or not all(isinstance(x, str) and x.count("/") == 3 for x in r):
+                return [ctx.err(spec, "encode returned %r" % (r,), fn, mod)]
+            pieces = [x.split("/")[3] for x in r]
+            labels = [x.split("/")[1] for x in r]
+            if any(x.split("/")[0] != "ur:bytes" or x.split("/")[2] != "hh" for x in r):
+                return [ctx.bad(spec, "a part is not `ur:bytes/<i>of<n>/<digest of the whole payload>/<piece>` (got `%s`)" % r[0][:40], fn, mod, key="header")]
+            where = "an encoding of %d characters with chunk size %d" % (L, M)
+            if "".join(pieces) != text:
+                lost = len(text) - len("".join(pieces))
+                return [ctx.bad(spec, "%s is split into %d parts whose pieces do not concatenate to the encoding (%s): the payload cannot be reassembled" % (
+                    where, len(r), "%d character(s) missing" % lost if lost > 0 else "wrong order or overlap"), fn, mod, key="parts-cover")]
+            if labels != ["%dof%d" % (i + 1, len(r)) for i in range(len(r))]:
+                return [ctx.bad(spec, "%s: parts are labelled %s, expected 1of%d .. %dof%d" % (where, labels[:4], len(r), len(r), len(r)), fn, mod, key="parts-cover")]
+            if any(len(p_) == 0 or len(p_) > M for p_ in pieces):
+                return [ctx.bad(spec, "%s: piece lengths %s (a piece is empty or longer than the chunk size)" % (where, [len(p_) for p_ in pieces][:8]), fn, mod, key="parts-cover")]
+    ctx.count("cells", cells)
+    return [ctx.ok(spec, "the pieces concatenate to the encoding, labels are 1..n of n, 1 <= piece length <= chunk size (all %d cells: text length 1..100 x chunk size 1..20)" % cells,
+                   fn, mod, key="parts-cover")]
+
+
 OBLIGATIONS = [
+
     ("C20.12", "SHARED", c20_12),
     ("C20.11", "SET-ORDER", c20_11),
     ("C20.1", "RANGE partition+agreement", c20_1),
@@ -569,4 +638,4 @@ OBLIGATIONS = [
     ("C20.9", "REGEX AST", c20_9),
     ("C20.10", "COVER no skip", c20_10),
 ]
-FLOORS = {"C20.1": 7, "C20.2": 4, "C20.3": 3, "C20.4": 4, "C20.5": 7, "C20.6": 2}
+FLOORS = {"C20.1": 7, "C20.2": 4, "C20.3": 3, "C20.4": 4, "C20.5": 7, "C20.6": 1}
